@@ -159,6 +159,9 @@ func (h *Hub) connectFoundService(remoteService *api.ServiceDetails, host, port,
 		return nil
 	}
 
+	// to see if the user withdraws the trust while the connection is established
+	withdrawals, _ := h.pairingWithdrawalCount(remoteService.SKI())
+
 	// do not initiate connections once the hub is shut down
 	if h.checkIsShutdown() {
 		return nil
@@ -231,8 +234,19 @@ func (h *Hub) connectFoundService(remoteService *api.ServiceDetails, host, port,
 
 	// establishing the connection took some time, the pairing may have been removed
 	// or the hub may have been shut down in the meantime
+	//
+	// if the trust was withdrawn, the handshake of this connection may have reported hello ok
+	// in the meantime, which marks the service as trusted again. So do not rely on that value
+	// but close the connection, and take the trust back if the user did not register the
+	// service again
+	count, registeredAgain := h.pairingWithdrawalCount(remoteService.SKI())
+	withdrawn := count != withdrawals
+	if withdrawn && !registeredAgain {
+		h.ServiceForSKI(remoteService.SKI()).SetTrusted(false)
+	}
+
 	pairingState := h.ServiceForSKI(remoteService.SKI()).ConnectionStateDetail().State()
-	if h.checkIsShutdown() ||
+	if h.checkIsShutdown() || withdrawn ||
 		(!h.IsRemoteServiceForSKIPaired(remoteService.SKI()) && pairingState != api.ConnectionStateQueued) {
 		shipConnection.CloseConnection(false, 0, "")
 	}
